@@ -133,6 +133,14 @@ Section Base.
     exact (copy_fails_module fo std_imports [] (mk s0 slf E st ord) ps out body fs ovs fl fl' H1 H2 H3 H4).
   Qed.
 
+  Lemma calls_eq stk c fv args (v v' : value) :
+    Std_Rules_Imp.calls fo std_imports stk c fv args v -> v = v' -> Std_Rules_Imp.calls fo std_imports stk c fv args v'.
+  Proof. intros H <-. exact H. Qed.
+
+  Lemma evals_copies_eq stk c tv fs (v v' : value) :
+    Std_Rules_Imp.copies fo std_imports stk c tv fs v -> v = v' -> Std_Rules_Imp.copies fo std_imports stk c tv fs v'.
+  Proof. intros H <-. exact H. Qed.
+
   Lemma fits_chk z : fits z -> chk fo z = Ok (VInt fo z).
   Proof. unfold fits, chk. intros ->. reflexivity. Qed.
   Lemma fits_iff z : fits z <-> (i64_min <= z <= i64_max)%Z.
